@@ -734,12 +734,12 @@ impl PreferenceManager {
         // don't do an update if the value hasn't changed
         let mut is_user_pref = true;
         if let Some(pref_value) = self.api_prefs.prefs.get(key) {
-            if pref_value.as_str().unwrap() != value {
+            if Self::as_string_pref_value(key, pref_value, value)? != value {
                 is_user_pref = false;
                 self.reset_files_from_preference_change(key, value)?;
             }
         } else if let Some(pref_value) = self.user_prefs.prefs.get(key) {
-            if pref_value.as_str().unwrap() != value {
+            if Self::as_string_pref_value(key, pref_value, value)? != value {
                 self.reset_files_from_preference_change(key, value)?;
             }
         } else {
@@ -764,6 +764,25 @@ impl PreferenceManager {
             self.api_prefs.prefs.insert(key.to_string(), Yaml::String(value.to_string()));
         }
         return Ok( () );
+    }
+
+    /// Returns the current (string) value of a string-valued preference.
+    /// It is an error to give a (non-boolean, non-numeric) string value to a preference whose value is a boolean or a number.
+    fn as_string_pref_value<'a>(key: &str, current_value: &'a Yaml, new_value: &str) -> Result<&'a str> {
+        return match current_value.as_str() {
+            Some(str) => Ok(str),
+            None => bail!("'{}' is not an appropriate value for preference {} (its current value is '{}')",
+                        new_value, key, yaml_to_string(current_value, 0)),
+        };
+    }
+
+    /// True if 'key' is a known preference and has a boolean value
+    pub fn is_boolean_pref(&self, key: &str) -> bool {
+        let value = match self.api_prefs.prefs.get(key) {
+            Some(value) => Some(value),
+            None => self.user_prefs.prefs.get(key),
+        };
+        return matches!(value, Some(Yaml::Boolean(_)));
     }
 
     fn reset_files_from_preference_change(&mut self, changed_pref: &str, changed_value: &str) -> Result<()> {       
